@@ -66,8 +66,13 @@ pub fn synth_sk<V: Fv>(rng: &mut ChaCha20Rng, mode: u32) -> Vec<u8> {
 
 /// Signature bytes with a valid header, random salt and a valid compressed body.
 pub fn synth_sig<V: Fv>(rng: &mut ChaCha20Rng) -> Vec<u8> {
-    let v = super::codec::honest_like(V::N, rng, 165.0);
-    let body = spec::compress(&v, V::SIG_LEN - 41).unwrap();
+    // (an honest-like vector fits the budget all but once in several thousand draws)
+    let body = loop {
+        let v = super::codec::honest_like(V::N, rng, 165.0);
+        if let Some(b) = spec::compress(&v, V::SIG_LEN - 41) {
+            break b;
+        }
+    };
     let mut b = vec![0x50 | V::LOGN];
     b.extend(rand_bytes(rng, 40));
     b.extend(body);
